@@ -232,9 +232,10 @@ def plan(tier, seed):
     tasks = []
     for pid in sorted(corpus.corpus()):
         k = b["small_k"] if pid in b["small"] else b["corpus_k"]
+        nsh = 3 if k == 1 else 8
         for form in ("free", "fixed"):
-            for sh in range(3):
-                tasks.append(("E", tier, pid, form, k, sh, 3))
+            for sh in range(nsh):
+                tasks.append(("E", tier, pid, form, k, sh, nsh))
     names = [n for n, _ in G.EXEC_CONSTRUCTS]
     for d in range(1, b["nest_depth"] + 1):
         for first in names:
